@@ -309,6 +309,11 @@ func checkC14(cc any) *ev.Verdict {
 		}
 	}
 	switch {
+	case !utf8.ValidString(text):
+		// the grammar is stated over characters: whether a byte sequence that is not UTF-8 "is a
+		// valid script" is not defined (the pinned code reads each stray byte as U+FFFD, another
+		// reader may refuse the text). No panic and located errors are still required.
+		v.Label("ref:not-utf8 (valid/invalid clause skipped)")
 	case ref.Uncertain:
 		v.Label("ref:uncertain")
 	case ref.Valid:
